@@ -15,7 +15,7 @@ def check(prop, tier, seed, replay=None):
     rep = C.Report(prop, tier, seed); audit = C.proof_audit(prop); rnd = random.Random(seed); thorough = tier == 'thorough'
     rep.cov['rule'] = ('layout_stride -> layout_left/right conversion for 24 (target, source) index type pairs x rank 0-4; stride tuples canonical / one stride off / permuted / '
                        'canonical of the other layout, zero and one extents included; each conversion runs in a child process of an assertion-enabled build (exit status observed) '
-                       'and of an NDEBUG build; non-trivial = rank>=1 admissible; distinct by op line')
+                       'and of an NDEBUG build, each also with the library\'s _MDSPAN_DEBUG macro defined; non-trivial = rank>=1 admissible; distinct by op line')
     cases = []
     if replay: cases = [tuple(replay['case'])]
     else:
@@ -43,7 +43,8 @@ def check(prop, tier, seed, replay=None):
     adm = [x == 'ok 1' for x in C.driver([l + ' adm' for l in lines()])]
     m_dbg = [canon(x) for x in C.driver(lines())]; m_nd = [canon(x) for x in C.driver(lines(' ndebug=1'))]
     rep.notes['variants'] = {}
-    for cfg, model, ndebug in (('gcc20-ubsan', m_dbg, False), ('gcc20-O2-ndebug-emul', m_nd, True)) + ((('clang20-O0-assert', m_dbg, False), ('clang23-O2-ndebug', m_nd, True)) if thorough else ()):
+    # NDEBUG decides, whatever else is defined: the library's own _MDSPAN_DEBUG macro together with NDEBUG is still an NDEBUG build
+    for cfg, model, ndebug in (('gcc20-ubsan', m_dbg, False), ('gcc20-O2-ndebug-emul', m_nd, True), ('gcc20-O2-ndebug-mdspandebug', m_nd, True), ('gcc23-O0-assert-mdspandebug', m_dbg, False)) + ((('clang20-O0-assert', m_dbg, False), ('clang23-O2-ndebug', m_nd, True)) if thorough else ()):
         try: exe, secs, cached = build(cfg)
         except C.BuildError as e:
             rep.broke(dict(correspondence='c20 server build (%s)' % cfg, why=str(e), log=e.log[-3000:])); continue
